@@ -54,6 +54,8 @@ func genRelay(t *rapid.T, w *world.World, id string) world.Action {
 	wts := map[string]int{"handshake": 2, "recv-p2c": 1 + 6*min(p2cPending, 3), "ack-p2c": 1 + 3*min(p2cAckPending, 3), "recv-c2p": 1 + 6*min(c2pPending, 3), "ack-c2p": 1 + 4*min(c2pAckPending, 3), "update": 1}
 	if _, ok := w.P.PApp.ProviderKeeper.GetConsumerIdToChannelId(w.P.Ctx(), id); !ok {
 		wts["handshake"] = 8
+	} else if w.ProviderVoucherDenom(id, "stake") == "" {
+		wts["handshake"] = 6 // the transfer channel is still being opened
 	}
 	op := world.Weighted(t, "relayop", wts)
 	rs := &world.RelaySpec{}
@@ -79,7 +81,8 @@ func genRelay(t *rapid.T, w *world.World, id string) world.Action {
 func prelude(t *rapid.T, w *world.World) {
 	spawn := w.Now.UnixNano() + int64(rapid.IntRange(8, 14).Draw(t, "pspawn"))*int64(time.Second)
 	chain := rapid.SampledFrom(ccvOpts.ChainIDs).Draw(t, "pchain")
-	spec := &world.ConsumerSpec{ChainID: chain, Metadata: "p", Init: &world.InitSpec{SpawnTime: spawn, RevNumber: world.RevOf(chain), RevHeight: uint64(rapid.SampledFrom([]int{1, 1, 7}).Draw(t, "prevh")), UnbondingSec: int64(rapid.SampledFrom([]int{1000, 5000}).Draw(t, "pcub"))}}
+	spec := &world.ConsumerSpec{ChainID: chain, Metadata: "p", Init: &world.InitSpec{SpawnTime: spawn, RevNumber: world.RevOf(chain), RevHeight: uint64(rapid.SampledFrom([]int{1, 1, 7}).Draw(t, "prevh")), UnbondingSec: int64(rapid.SampledFrom([]int{1000, 5000}).Draw(t, "pcub")),
+		BlocksPerDistr: int64(rapid.SampledFrom([]int{1, 3, 5}).Draw(t, "pbpd")), Fraction: rapid.SampledFrom([]string{"0.75", "0.5", "0.0", "1.0", "0.333333333333333333"}).Draw(t, "pfrac")}}
 	if rapid.IntRange(0, 3).Draw(t, "pshaping") == 0 {
 		spec.Shaping = w.GenShaping(t, false)
 		spec.Shaping.Allow, spec.Shaping.Deny, spec.Shaping.MinStake = nil, nil, 0
@@ -98,7 +101,7 @@ func prelude(t *rapid.T, w *world.World) {
 		w.Agenda = append(w.Agenda, world.Action{Kind: world.KBlock, Dt: 4e9})
 	}
 	if rapid.IntRange(0, 9).Draw(t, "popen") < 7 {
-		for i := 0; i < 16; i++ {
+		for i := 0; i < 22; i++ {
 			w.Agenda = append(w.Agenda,
 				world.Action{Kind: world.KRelay, Consumer: "0", Relay: &world.RelaySpec{Op: "handshake"}},
 				world.Action{Kind: world.KBlock, Dt: 2e9},
